@@ -40,6 +40,7 @@ func init() {
 			{ID: "R03y", Floor: 1, Doc: "the insertion index refuses no record for the length of its digest (= R11z)", Run: ruleR11z},
 			{ID: "R03z", Floor: 1, Doc: "ReadOrGenerateIndex generates the index of an index-less CARv2 over Reader.DataReader(), the payload window: offsets stay payload-relative and the walk stays bounded by DataSize", Run: ruleR03z},
 			{ID: "R03A", Floor: 1, Doc: "LoadIndex makes the end-of-payload test before every read of a section length (a CARv2 payload may hold no sections: D21)", Run: ruleR03A},
+			{ID: "R03B", Floor: 1, Doc: "MultihashIndexSorted.Load gives each hash function's bucket the group of records it took out of its by-code map, not the whole list it was given", Run: ruleR03B},
 			{ID: "R03v", Floor: 1, Doc: "the payload view index generation scans is the whole payload window (= R10d)", Run: ruleR10d},
 			{ID: "R03w", Floor: 1, Doc: "no reader type beside the audited ones stands between index generation and the bytes (= R16n)", Run: ruleR16n},
 			{ID: "R03g", Floor: 1, Doc: "InsertionIndex.GetAll offers every record with the key's digest", Run: ruleR03g},
@@ -839,10 +840,15 @@ func ruleR03g(c *Ctx, r *Report) {
 	}
 	isDigest := func(v ssa.Value) bool {
 		fv, _ := fieldOfLoad(canon(v))
+		// a record's digest, or the decoded multihash's (the search entry is built from it)
+		return fv != nil && (fv.Name() == "digest" || fv.Name() == "Digest" && fv.Pkg() != nil && fv.Pkg().Path() == pkgMh)
+	}
+	isRecordDigest := func(v ssa.Value) bool {
+		fv, _ := fieldOfLoad(canon(v))
 		return fv != nil && fv.Name() == "digest"
 	}
 	mismatch := condEdges(it, matchCallCond("bytes", "", "Equal", false, func(cl *ssa.Call) bool {
-		return isDigest(cl.Call.Args[0]) && isDigest(cl.Call.Args[1])
+		return isDigest(cl.Call.Args[0]) && isDigest(cl.Call.Args[1]) && (isRecordDigest(cl.Call.Args[0]) || isRecordDigest(cl.Call.Args[1]))
 	}))
 	bad := ""
 	if len(mismatch) == 0 {
